@@ -485,7 +485,7 @@ type budgetFacts struct {
 	clean         map[string]*corev1.Pod // node -> the single non-Unknown, non-Failed pod of a node holding exactly one non-Unknown pod
 	maxU          int
 	maxUok        bool
-	uLenient      int // targeted nodes without any Ready pod
+	uLenient      int // targeted nodes without any Ready pod (an outdated terminating pod does not count as Ready)
 	unresponsive  int
 	maxSchedFail  int
 	updDeletes    []*corev1.Pod // deleted pods that were the single pod of a clean targeted node
@@ -504,7 +504,10 @@ func budgetOf(r *sim.Record, v *ersView) *budgetFacts {
 		pods := nonUnknown(v.podsByNode[node.Name])
 		anyReady := false
 		for _, p := range pods {
-			if oracle.IsReady(p) {
+			// an outdated pod whose deletion was already requested is on its way out: it does not make its node
+			// available even while its Ready condition lingers (the property lists "outdated terminating" apart
+			// from "outdated available"); an up-to-date terminating pod is given the benefit of the doubt
+			if oracle.IsReady(p) && !(p.DeletionTimestamp != nil && p.Annotations[oracle.AnnTemplateHash] != v.rs.Spec.TemplateGeneration) {
 				anyReady = true
 			}
 		}
@@ -640,12 +643,38 @@ func creationBound(r *sim.Record, v *ersView, nTargeted int) int64 {
 	return oracle.CreationBound(t+time.Second, ru.SlowStartIntervalDuration.Duration, inc, *ru.MaxParallelPodCreation)
 }
 
+// createdCount is the number of pods a sync created or tried to create: per target node one, or the number of creations
+// the store applied for that node if larger (a refused creation that is tried again for the same node is one pod; a
+// creation that was stored, answered with an error and repeated is two).
+func createdCount(v *ersView) int {
+	calls, applied := map[string]int{}, map[string]int{}
+	for i, c := range v.creates {
+		node := fmt.Sprintf("#%d", i)
+		if pod, ok := c.Obj.(*corev1.Pod); ok && oracle.NodeOf(pod) != "" {
+			node = oracle.NodeOf(pod)
+		}
+		calls[node]++
+		if c.Applied {
+			applied[node]++
+		}
+	}
+	n := 0
+	for node := range calls {
+		if applied[node] > 1 {
+			n += applied[node]
+		} else {
+			n++
+		}
+	}
+	return n
+}
+
 func rate(r *sim.Record, v *ersView, h *History) []V {
 	var out []V
 	if v.role == oracle.RoleActive && len(v.creates) > 0 {
 		n := len(v.targeted(r.Pre))
-		if b := creationBound(r, v, n); int64(len(v.creates)) > b {
-			out = append(out, V{"C09", "rate", "C09/rate/creates-over-slow-start-bound", fmt.Sprintf("replica set %s created %d pods in one sync; bound min(maxParallelPodCreation, (1+floor(t/interval))*increase) = %d (targeted nodes %d, strategy %s)", v.rs.Name, len(v.creates), b, n, strat(v.eds))})
+		if b := creationBound(r, v, n); int64(createdCount(v)) > b {
+			out = append(out, V{"C09", "rate", "C09/rate/creates-over-slow-start-bound", fmt.Sprintf("replica set %s created %d pods in one sync; bound min(maxParallelPodCreation, (1+floor(t/interval))*increase) = %d (targeted nodes %d, strategy %s)", v.rs.Name, createdCount(v), b, n, strat(v.eds))})
 		}
 	}
 	if h == nil || v.eds.Spec.Strategy.ReconcileFrequency == nil {
